@@ -29,10 +29,10 @@ def sh(cmd, cwd=None, env=None, timeout=3600):
     return p.returncode, p.stdout
 
 
-def worktree(tag):
+def worktree(tag, commit="HEAD"):
     d = f"/tmp/mut-{tag}-{os.getpid()}"
     sh(f"git -C {REPO} worktree remove --force {d}")
-    rc, out = sh(f"git -C {REPO} worktree add -q --detach {d} HEAD")
+    rc, out = sh(f"git -C {REPO} worktree add -q --detach {d} {commit}")
     if rc:
         raise SystemExit(out)
     return d
@@ -70,8 +70,10 @@ def cmd_confirm(ids):
         d = SEEDED / sid
         meta = json.loads((d / "meta.json").read_text())
         res = {"id": sid, "at": time.strftime("%Y-%m-%dT%H:%M:%S"), "repo_head": sh(f"git -C {REPO} rev-parse --short HEAD")[1].strip()}
-        clean = worktree(sid + "-clean")
-        mut = worktree(sid + "-mut")
+        base = meta.get("base_commit", "HEAD")  # seeds whose lines were later rewritten by a fix: commit
+        res["base_commit"] = base
+        clean = worktree(sid + "-clean", base)
+        mut = worktree(sid + "-mut", base)
         try:
             rc, out = sh(f"git apply {d/'patch.diff'}", cwd=mut)
             res["patch_applies"] = rc == 0
